@@ -696,7 +696,7 @@ def generate(repo):
 
 def write(repo=None, outfile=None, write_ref=False):
     repo = repo or os.environ.get("VERIF_REPO", "/repo")
-    outfile = outfile or os.path.join(VERIF, "coq", "gen", "CsvGen.v")
+    outfile = outfile or os.path.join(os.environ.get("VERIF_GEN_OUT") or os.path.join(VERIF, "coq", "gen"), "CsvGen.v")
     body, status = generate(repo)
     if write_ref:
         if status["out_of_grammar"]:
